@@ -132,6 +132,10 @@ func postprocessItem(item *models.Item) []*models.Item {
 
 				logger.Debug("extracted assets", "item_id", item.GetShortID(), "count", len(assets))
 			}
+		} else if shouldExtractOutlinks(item) {
+			// Assets capture is disabled, but the extractors of structured documents (JSON, XML...)
+			// are also the ones that return the outlinks of these documents: keep those
+			_, outlinksFromAssets, _ = extractAssets(item)
 		}
 
 		// Extract outlinks from the page
